@@ -24,10 +24,26 @@ pub fn run_seed(seed: u64, sim: &str, prop: &str, idx: u64) -> u64 {
 }
 
 pub fn profile_name() -> &'static str {
+    // the unoptimised (cargo dev profile) pass announces itself through the environment
+    if std::env::var("LMSIM_PROFILE_NAME").map(|v| v == "unoptimised").unwrap_or(false) {
+        return "unoptimised";
+    }
     if cfg!(debug_assertions) {
         "checked"
     } else {
         "shipping"
+    }
+}
+
+/// The plan of a check, optionally restricted to the phases named in `LMSIM_PHASES` (comma separated).
+pub fn plan_of<S: Sim>(prop: &str, tier: Tier) -> Vec<Phase> {
+    let plan = S::plan(prop, tier);
+    match std::env::var("LMSIM_PHASES") {
+        Ok(list) if !list.trim().is_empty() => {
+            let names: Vec<&str> = list.split(',').map(|x| x.trim()).collect();
+            plan.into_iter().filter(|p| names.contains(&p.name)).collect()
+        }
+        _ => plan,
     }
 }
 
@@ -47,7 +63,7 @@ pub fn total_runs(plan: &[Phase]) -> u64 {
 }
 
 pub fn gen_scenario<S: Sim>(prop: &str, tier: Tier, seed: u64, idx: u64) -> S::Sc {
-    let plan = S::plan(prop, tier);
+    let plan = plan_of::<S>(prop, tier);
     gen_scenario_with::<S>(&plan, prop, tier, seed, idx)
 }
 
@@ -147,7 +163,7 @@ pub fn worker_main<S: Sim>(prop: &str, tier: Tier, seed: u64, start: u64, end: u
     super::install_panic_hook();
     alloc::install_trap_handler();
     let cell = Cell::open(cell_path);
-    let plan = S::plan(prop, tier);
+    let plan = plan_of::<S>(prop, tier);
     let out = std::io::stdout();
     let mut out = out.lock();
     let mut buf = String::with_capacity(1 << 16);
@@ -469,7 +485,7 @@ fn drive_range<S: Sim>(
 }
 
 pub fn run_check<S: Sim>(prop: &str, tier: Tier, seed: u64, workers: usize, limit: Option<u64>, dump: bool, spread: bool) -> CheckResult {
-    let plan = S::plan(prop, tier);
+    let plan = plan_of::<S>(prop, tier);
     let mut total = total_runs(&plan);
     let mut stride = 1u64;
     if let Some(l) = limit {
